@@ -305,6 +305,31 @@ EXT = {
             note_sub=("find_binaries' directory walk (ignore crate, infer::is_app) is exercised, not modelled.", "the ignore crate's rule language and infer::is_app are parameters of the find_binaries model.")),
 }
 
+
+# ---- session 4: appended after the session-3 addenda ----
+EXT4 = {
+ "C01": "Session 4: C01_report_monotone (over add_results: for any batch and key spelling every file already in the map is still there with nothing removed, lowered, shortened or cleared); an oracle on the real add_results maps independent of the model (each entry = closed-form aggregate of all records filed under its canonical key), with directed batches in which a record saturates and a later record of the same batch hits an existing key.",
+ "C02": "Session 4: one whole run is a Lean function RunAll.run (lcov/JaCoCo bytes -> result map -> rewrite_paths with exclusion markers -> ordering -> lcov, files, covdir, coveralls(+), cobertura or ActiveData bytes), a composition of the component models tied to the real binary byte for byte; C02_end_to_end composes Producer.run (C17) with the pipeline and the report: permuted path arguments, any packaging into directories/zips/plain files, any thread count and schedule give observably the same result map (`_false` = the C17 same-stem finding); after fix 73c9152 (functions listed in name order) sorted report types are byte-identical under argument permutation and any merge order (C02_run_perm_sorted_bytes, C02_run_schedule_sorted_bytes) with no hypothesis on hash-map order; the stream uses real layouts (2-3 directories, 1-2 zips, an LLVM gcno/gcda pair, -s trees) and a byte oracle on pairs of real runs.",
+ "C03": "Session 4: the HTML report is modelled BYTE FOR BYTE (Tera's rendering of the four templates, IEEE-exact percentages, page set and overwrite order) with strict page readers proved to recover every line number, count (uninstrumented is never 0; 2^64-1 exact), source text, name, link and covered/total pair for every context (C03_htmlb_*), tied on every .html file of generated sites; every writer model lists functions by `sortByName` (fix 73c9152; no order is read off the real output) and takes the demangler as a parameter `dm`: decode(write dm rs) = rs with renamed functions when dm is injective on each file's functions, closed `_false` witness _Z3fooi/_Z3food (known finding C03-demangle-collapses-overloads), streams with demangling ON and names that really demangle; the html output as a file system (page/directory collisions, a directory named index.html: `_false` + `_partial`, two findings); row links resolved as URLs (finding C03-html-links-not-urlencoded); several types on one stdout (finding).",
+ "C04": "Session 4: lcov 2.x exception branches (BRDA:<line>,e<block>,<branch>,<taken>) are in the AST and, after fix 66f7aba, inside the unguarded C04_fidelity (C04_exception_flag_ignored: read byte for byte like the record without the flag).",
+ "C05": "Session 4: the writer lists FN/FNDA in name order (Cli.sortFns; C05_output_independent_of_table_order), byte tie on every section with no order read from the output; the CLI theorems are about Cli.runJ (the run WITH the Java/Kotlin partial-path lookup); C05_rewrite_idempotent_sharp (sharp guards hrel/hguess/habs); a fourth non-idempotence recorded (C05-abs-prefix-below-source-restripped) with closed witness; `--branch` off fixed point; chains with respelled paths, absolute -p, --filter, --ignore-not-existing and exclusion markers, each moved record explained by exactly one finding.",
+ "C06": "Session 4: C06_cli_sharding_partial holds for any -s/-p applied at every stage (the sourceDir = none guard is gone), C06_cli_sharding_source_partial; lcov and JaCoCo inputs naming the same file; the matcher of C06-jacoco-branches-without-branch-flag is exact (sharded branches = OR over the JaCoCo inputs that are direct children of the root, none elsewhere); finding C06-partial-path-resolved-shard-listed-twice.",
+ "C07": "Session 4: death of a worker while it holds the result-map mutex is tied (hook panic_in_merge: event died_in_merge, silent lock-when-poisoned move, the realisation must end with the real exit status), C07_no_write_after_poison, C07_lock_after_poison_dies; hung runs are bounded (20 s for the first, 4 s afterwards, stop after three) so a hang is a verdict within about a minute.",
+ "C08": "Session 4: lines that live in several basic blocks: the line count is proved to be exactly the entering part when the line's blocks carry no circuit, the entering part plus the loop minimum for exactly one simple loop, and in general between the entering part and the sum of the line's block counts; k copies of a gcda scale every line for every circuit structure; count > 0 iff some block of the line has a positive count (converse under reachability); all composed end to end with flow recovery and tied field by field to the real Gcno state and to llvm-cov on generated one-line statements; several functions per gcno (C08_line_count_is_sum_over_functions); instrumented-line theorems over the LINES records with the format >= 8 `_false` witness (known finding C08-gcno8-line-range-filter; programs compiled with -coverage-version 402*/407*/408*/800*/A93*/B01*); names decoded lossily (fix 7f9b2b3); the irreducible-cycles matcher re-implements llvm-cov's cycle cancelling.",
+ "C09": "Session 4: after fix 5a9c87e the JSON spec is stated key by key independently of the reader's fold: a line's count is the clamped SUM over all its entries (template instantiations), its branch vector the position-wise OR, a function executed iff some entry with that demangled name is (C09_json_line_count, _branch_vector, _function, C09_json_repeated_line_adds_up), corpus witness = the real gcov 12 JSON of a template program; text names are the lossy decoding of their bytes for every name without CR/LF (fix 7f9b2b3); a negative function call count means executed; gzip trailing data documented and tied.",
+ "C10": "Session 4: after fix ae885a6 a repeated attribute is not an error (first match for looked-up attributes, last value in the <line> loop: theorems), attribute work per element linear; after fix 276971e an undecodable sourcefilename rejects the report (C10_unreadable_sourcefilename_rejects_the_report), an absent one falls back; wrong-encoding reports tied (UTF-16 gives Ok([]): observation); childless self-closing containers generated.",
+ "C11": "Session 4: globset 0.4.16's whole pattern language (classes, ranges, negation, alternation, escapes, ** anywhere, all error kinds) and the GlobSet strategy tables are inside the model (executable matcher = regex denotation, conservative over the earlier subset, selection/partition theorems re-derived, unparsable pattern = proved and tied panic; findings C11-globset-trailing-dot-path, C11-glob-escaped-comma-doublestar); the selection and partition theorems now hold WITH exclusion markers in the code's order (markers before --filter; the model had them the other way round: review item 7); C11_prefix_removed_with_source, C11_rel_nonempty_iff; after fix fdef150 a key naming a file below the source dir is not looked up as a partial path (C11_partial_existing_file_kept).",
+ "C12": "Session 4: tree-shaped writers key a record by the canonical path when the reported path is absolute (model repaired: Rec.treePath); the guard is worded as 'keys that canonicalise below S' with closed witnesses that an existing file is not enough (backslash, prefix, mapping); the matcher of C12-respelled-duplicates is per file (every key that canonicalises to one path must sit in one record, otherwise an unnamed failure); Java/Kotlin stream with the real readdir order; after fix fdef150 C12_java_existing_once holds at full strength; html totals variant; finding C12-outside-source-dir-keeps-own-name.",
+ "C13": "Session 4: markdown, the five badges and coverage.json are modelled byte for byte (tabled layout, IEEE f32/f64 percentage arithmetic, {:.p$}, templates) and tied byte for byte; printed percentages proved within half a unit of the last place + 2.5e-5 (markdown) of 100*covered/total for all totals and precisions; badge figure = floor(100c/t) in [0,100] from the same global totals as coverage.json; html file header vs listed rows (C13_html_file_listed under lastKey <= source lines, `_false`: finding C13-html-header-counts-unlisted-lines); html sums under duplicate paths (`_stmt/_false/_partial`, finding C13-html-duplicate-path); rounding mode per figure (printedOK2: half-even vs half-away at ties).",
+ "C14": "Session 4: cost views of the four text readers (reads, map operations, copied/hashed bytes, vector slots, attribute visits): work and result size are proved linear in the input for all inputs, with three named exceptions each proved as a `_false` family + `_partial` bound under exactly the violated guard (lcov branch numbers, JaCoCo cb/mb, JaCoCo name prefixes); the real readers are tied size for size and measured on scaling families n..8n (time ratio with floor, RSS <= 16 MiB + 200*input) in a 2 GiB child; the overflow and allocation matchers accept a crash only if the model answers the same crash site / a clamped rerun is fine; CLI-level stream with non-UTF-8 names (fix 7f9b2b3); fix ae885a6 removed the quadratic attribute check.",
+ "C15": "Session 4: stamp theorems over the four version bytes (C15_stamp_only_number_matters, `_false`: a 472* gcda is accepted against 402* notes: known finding C15-version-stamp-middle-char-ignored), ill-formed names and names that collide after lossy decoding generated, distinct and all-zero gcda files per stem.",
+ "C16": "Session 4: end to end through RunAll.run for seven report types: the report with markers is the marker-free report minus exactly the rule-selected lines/branches, identical without marker options or readable sources; C16_then_filter: --filter covered|uncovered is decided on the data AFTER exclusion (`_false` witness for 'before'); C16_main_branch_flag_irrelevant and a CLI stream with JaCoCo input and --excl-br-* with and without --branch.",
+ "C17": "Session 4: raw zip entries inside the model (the zip crate's index, canonical names, listing and lookup): after fixes 2f541c3 and 99c0f28 C17_zip_entries_exact holds at full strength (per canonical spelling the first non-directory entry with a safe name is listed, sniffed and read; respelled entries a//b, a/./b, ./a/b are used); C17_items_exact_raw; repeated/nested arguments and linked sub-directories as `_false` witnesses (findings); raw zip writer, long names, overlapping arguments in the streams.",
+ "C18": "Session 4: for every context the element/attribute skeleton and the < > \" ' sequence of an HTML file or index page depend only on (branch flag, date shown, number of parents, number of rows), every & starts a Tera entity, for every page of every site (C18_htmlb_*, no guard on names or text), tied to html.parser on the real pages; 45 'hard' Unicode characters (combining marks, ZWJ, variation selectors, bidi and format characters) through every writer; C18_json_debug_quoting_rejected; row links as URLs (C18_row_link_target_false/_partial, C18_row_link_fixed); user templates are an explicit assumption.",
+ "C19": "Session 4: after fix 232bfd3 the inputs are extracted below tmp/inputs: the extractions are DERIVED from the Producer model (extractsOf) and proved apart from every worker directory for every stem, number and worker (C19_extractions_apart_from_workers; the old layout kept as a closed regression witness), C19_no_write_through_link, C19_tmp_removed_last, C19_nothing_of_tmp_survives; in-process layouts compared with extractsOf, a recording gcov stub at CLI level.",
+ "C20": "Session 4: llvm-profdata's list syntax is a model (parseList) and, after fix 4f2eb74, parseList (mergeStdin ps) = ps.map (1,.) under the exact guard (`_false`: newline, trailing blank, non-UTF-8: finding), tied to the REAL llvm-profdata; after fix 232bfd3 the private empty worker directory is a theorem for every input name and interleaving (C20_private_directory, C20_every_schedule), composed with C19; export-log theorems (one export per found binary per merged profile, against its own profile); multi-translation-unit gcc programs in digit-named directories with a g++ template unit at threads 1/2/3/8; content-dependent stub tools; finding C20-same-program-exported-twice.",
+}
+
 # stale sentences of the session-2 texts, replaced when the manifest is generated
 TEXT_SUB = {
  "C01": [("Proof: 18 theorems about", "Proof: theorems about")],
@@ -313,6 +338,27 @@ TEXT_SUB = {
  "C11": [(" Normal form of the relative path is refuted by a closed witness and proved under its guard (known finding C11-mapping-backslash).", "")],
  "C14": [("Not covered by a theorem: the gcno/gcda binary reader (tied by C15/C08 at CFG level, measured here) and the time/memory of the Rust code, which are MEASURED:",
           "Time and memory of the Rust code are MEASURED:")],
+}
+
+
+# session 4: stale sentences of the notes (applied after the session-3 substitutions)
+NOTE_SUB4 = {
+ "C03": [("Tera (html) and tabled (markdown) stay trusted below the fragment level; demangling is off in the generated sets (an opaque String -> String);",
+          "Tera's rendering of the four html templates is modelled and tied byte for byte (tabled/markdown: C13); the demangler is a parameter `dm` of the writer models whose values on the generated names are read from the real demangler;")],
+ "C05": [("Hash-map iteration order of functions is not modelled (any order is covered by C04's fidelity theorem);", "Functions are listed in name order (fix 73c9152; modelled, Cli.sortFns);"),
+         ("rewrite_paths idempotence is exercised through the CLI chains only (C11 models it).", "rewrite_paths inside a run is modelled by Cli.runJ and tied on the CLI chains; chains with exclusion markers or JaCoCo inputs are judged by the oracle only.")],
+ "C09": [("from_utf8_unchecked on non-UTF-8 input (never generated).", "names are decoded lossily since fix 7f9b2b3 (modelled, non-UTF-8 names generated).")],
+ "C11": [("globset (subset literal/?/*/**) and std::path are modelled", "globset 0.4.16 (whole pattern language and the GlobSet strategy tables; regex-automata/Aho-Corasick trusted to implement regex semantics) and std::path are modelled"),
+         ("exclusion markers are C16's subject.", "exclusion markers enter the selection theorems through the file-filter parameter (their own semantics is C16's subject).")],
+ "C12": [("FS assumptions as in C11; in-process only.", "FS assumptions as in C11 (finite tree with symbolic links; the Java/Kotlin walk order is a parameter read from the real readdir); in-process plus a small CLI stream.")],
+ "C13": [("Rust floating point and the third-party serialisers are not modelled;", "IEEE f32/f64 arithmetic and {:.p$} are modelled for markdown, badges and coverage.json (exact), the other formats' figures are judged by the audited printedOK/printedOK2; tabled's layout is modelled for ASCII names (display width of non-ASCII text is not);")],
+ "C14": [("Known findings C14-lcov-branch-number-alloc and C14-jacoco-branch-vector-alloc (a number in the input is an allocation size).", "Known findings C14-lcov-branch-number-alloc, C14-jacoco-branch-vector-alloc (a number in the input is an allocation size), C14-jacoco-name-prefix-amplification, C14-gcov-json-gzip-amplification. Cost counters correspond to Rust operations by construction of the cost views; hash-map operations are counted as O(1); time and RSS of the real readers are measured as ratios on scaling families.")],
+ "C16": [("the path plumbing of rewrite_paths around the removal loop is exercised, not modelled.", "the path plumbing of rewrite_paths around the removal loop is modelled in RunAll.run (rewritePathsF) and tied to the binary.")],
+ "C17": [("File system, walkdir, zip, symlink/hard-link extraction are exercised, not modelled;", "The zip crate's index (first place, last data for a repeated raw name), canonical entry names and the listing/lookup are modelled; the file system, walkdir and symlink/hard-link extraction are exercised, not modelled; arguments are assumed pairwise non-nested and directory inputs free of links to directories (findings);"),
+         (" non-enclosed zip names are outside the model (skipped since 5f37686).", " unsafe zip names (.., absolute, NUL) are skipped (modelled).")],
+ "C18": [("quick-xml, serde_json and Tera are modelled as escape tables and tied at run time;", "quick-xml, serde_json and Tera's escaping are modelled and tied at run time, whole HTML pages byte for byte; user templates given through --output-config-file are outside every theorem;")],
+ "C19": [("the zip crate's enclosed_name (tied).", "canonical zip entry names (modelled, tied).")],
+ "C20": [("llvm-profdata/llvm-cov are replaced by recording stubs;", "llvm-profdata/llvm-cov are replaced by recording, content-dependent stubs, and the list-file syntax is tied to the real llvm-profdata-14;")],
 }
 
 def main():
@@ -331,10 +377,13 @@ def main():
         for a, b in TEXT_SUB.get(pid, []):
             assert a in text, (pid, a)
             text = text.replace(a, b)
-        c["text"] = f"{n} audited theorems. " + text + (" " + e["add"] if e.get("add") else "")
+        c["text"] = f"{n} audited theorems. " + text + (" " + e["add"] if e.get("add") else "") + (" " + EXT4[pid] if pid in EXT4 else "")
         if e.get("note_sub"):
             assert e["note_sub"][0] in c["note"], pid
             c["note"] = c["note"].replace(e["note_sub"][0], e["note_sub"][1])
+        for a, b in NOTE_SUB4.get(pid, []):
+            assert a in c["note"], (pid, a)
+            c["note"] = c["note"].replace(a, b)
         if e.get("technique"):
             c["technique"] = e["technique"]
         checks.append({
